@@ -1,6 +1,7 @@
 import Knut.Driver.C04
 import Knut.Driver.C11
 import Knut.Model.BalanceCmd
+import Knut.Model.JournalPrinter
 /-! Driver ops for the balance command model (C01, C02, C03, C05, C06, C09). -/
 namespace Knut.Driver.Balance
 open Knut Knut.Wire Knut.Driver
@@ -72,6 +73,15 @@ def handle (fields : List String) : Option String :=
     | some f, some ds => outcome (BalanceCmd.run f ds)
     | none, _ => "bad-flags"
     | _, none => "unsupported")
+  | ["print", j] => some (
+    -- `knut print`: check, then journal.Print
+    match (parseJournal j).bind Knut.Driver.C04.toDirectives with
+    | none => "unsupported"
+    | some ds =>
+      let days := (Builder.ofList ds).build
+      match Check.run days with
+      | .error _ => "error"
+      | .ok _ => "ok " ++ hexStr (JournalPrinter.print days))
   | ["balance-spec", fl, j] => some (
     match parseFlags fl, (parseJournal j).bind Knut.Driver.C04.toDirectives with
     | some f, some ds => if f.valuation.isSome then "unsupported" else outcome (BalanceCmd.runSpec f ds)
